@@ -274,6 +274,29 @@ func runCase(c Case) []ev.Violation {
 		}
 	}
 	if len(vs) == 0 {
+		// a second request with another clean path on the same endpoint: what the first one did must
+		// not have left anything behind in the endpoint's URL
+		be.Reset()
+		be.SetScript(backend.JSONResponse(200, `{"ok":true}`, be.ID))
+		rem2 := "/verif-second/request"
+		req2 := rawclient.Request("POST", c.Prefix+strings.TrimPrefix(rem2, "/")+"?s=2", [][2]string{{"Host", hostHdr}, {"Content-Type", "application/json"}, {"Connection", "close"}}, []byte(`{"k":"v"}`), nil)
+		if _, err := rawclient.Do(r.S.Addr, req2, 10*time.Second); err == nil {
+			time.Sleep(time.Millisecond)
+			rec.Class("second-request-on-the-same-endpoint")
+			if ex2 := be.Exchanges(); len(ex2) == 1 {
+				want2 := rem2
+				if c.Preserve && nestedBase {
+					want2 = path.Join(c.Base, rem2)
+				}
+				if got2 := ex2[0].Req.Target; got2 != want2+"?s=2" {
+					bad(fmt.Sprintf("second-request-path-wrong/preserve=%v", c.Preserve), "%s, then POST %s%s?s=2 on the same endpoint: upstream request-target %q, want %q", desc, c.Prefix, strings.TrimPrefix(rem2, "/"), got2, want2+"?s=2")
+				}
+			} else {
+				bad("second-request-not-forwarded-once", "%s, then a second clean request: backend received %d requests", desc, len(ex2))
+			}
+		}
+	}
+	if len(vs) == 0 {
 		rec.Sample(map[string]any{"target": target, "base": c.Base, "preserve": c.Preserve, "upstream": up.Target, "status": resp.Status})
 	}
 	return vs
@@ -424,7 +447,7 @@ func TestC16(t *testing.T) {
 	}
 	startDecoy()
 	defer rig.StopAll()
-	rec.SetRule("request targets written verbatim by a raw client: clean segments mixed with dot segments, %2e/%252e encodings, encoded slashes/backslashes, empty segments (//), ;params, authority tricks (@decoy, //decoy, absolute-form targets naming a decoy listener), queries carrying URLs and sub-delimiters (; , : ' ( ) * ! $ @ / ?, doubled and trailing &); x endpoint base path {'', '/', '/base', '/a/b/', ...} x preserve_path x route prefix (/olla/proxy/ and every routing prefix declared by a shipped profile, in front of an endpoint of the owning type) x engine; a decoy listener must never be contacted, the raw backend's request line is checked for containment under the base path and, for clean targets, for the exact expected path and verbatim query. Sub-check 'ports': 2..4 endpoints on one machine configured by address or by host name (http://localhost:<port>), with generated base paths, under round-robin: every request Olla attributes to an endpoint was received on that endpoint's own port. Plus generated relative/absolute health_check_url and model_url resolved by LoadFromConfig. non-trivial = target with a dot-segment/encoding/slash anomaly with preserve_path on and a nested base path (config: relative path under a nested base); distinct by full case")
+	rec.SetRule("request targets written verbatim by a raw client: clean segments mixed with dot segments, %2e/%252e encodings, encoded slashes/backslashes, empty segments (//), ;params, authority tricks (@decoy, //decoy, absolute-form targets naming a decoy listener), queries carrying URLs and sub-delimiters (; , : ' ( ) * ! $ @ / ?, doubled and trailing &); x endpoint base path {'', '/', '/base', '/a/b/', ...} x preserve_path x route prefix (/olla/proxy/ and every routing prefix declared by a shipped profile, in front of an endpoint of the owning type) x engine; a decoy listener must never be contacted, the raw backend's request line is checked for containment under the base path and, for clean targets, for the exact expected path and verbatim query. Every forwarded case is followed by a second clean request on the same endpoint (nothing of the first may stick to the endpoint's URL). Sub-check 'ports': 2..4 endpoints on one machine configured by address or by host name (http://localhost:<port>), with generated base paths, under round-robin: every request Olla attributes to an endpoint was received on that endpoint's own port. Plus generated relative/absolute health_check_url and model_url resolved by LoadFromConfig. non-trivial = target with a dot-segment/encoding/slash anomaly with preserve_path on and a nested base path (config: relative path under a nested base); distinct by full case")
 	rec.Assume("unclean targets may legitimately be answered by the mux's redirect or an error without any backend contact; the Host header sent upstream is the client's (documented) and is not asserted")
 	if ev.Replay(t, rec, "target", runCase) || ev.Replay(t, rec, "config", runCfg) || ev.Replay(t, rec, "ports", runPorts) {
 		return
